@@ -215,9 +215,9 @@ def side_rules_3(ctx):
                 src = norm(src[2])
             if src[0] == "call" and (str(src[1]).endswith("<impl [T]>::get") or oblig.INDEX_FNS.search(str(src[1]))) and len(src[2]) == 2:
                 r = norm(src[2][1])
-                if r[0] == "agg" and r[1].endswith("RangeTo") and norm(dict(r[3])["end"]) == ("const", 8):
+                if r[0] == "agg" and r[1].endswith("RangeTo") and is_const(norm(dict(r[3])["end"]), 8):
                     good = True
-                if r[0] == "agg" and r[1].endswith("ops::Range") and norm(dict(r[3])["start"]) == ("const", 0) and norm(dict(r[3])["end"]) == ("const", 8):
+                if r[0] == "agg" and r[1].endswith("ops::Range") and is_const(norm(dict(r[3])["start"]), 0) and is_const(norm(dict(r[3])["end"]), 8):
                     good = True
             ctx.check(good, "S3", "client-cookie-is-exactly-8-octets", ctx.where(b, st["sp"]),
                       "the first component returned by get_cookie must be data[..8] obtained with a check (is %s): a shorter client cookie "
